@@ -363,7 +363,7 @@ Proof. vm_compute. repeat split; discriminate. Qed.
     OWN position limiter since its last draw step - the only calls that change a bar's logic state
     without a draw step, C02_logic_change) this is [frame_of] its CURRENT state: position, length,
     message, prefix of the latest update.  The ghost [lat_step] never consults a limiter.
-    Out of sync members are the narrow class documented in docs/C05.md (C05_multi_stale_refuted). *)
+    Out of sync members are the narrow class documented in docs/C05.md (C05_nothing_lost_member_refuted). *)
 From IndModel Require Import MultiSpec MultiLatest.
 From IndProofs Require Import MultiLatestProofs.
 
